@@ -328,6 +328,53 @@ pub fn c13_families(tier: &str) -> Vec<Family> {
     v
 }
 
+/// medium-size inputs (6..12 nodes) that leave several communities after the first level:
+/// seeded G(n,p) both kinds, rings of (directed) triangles, two cliques joined by a path
+pub fn medium_inputs(tier: &str) -> Vec<Built> {
+    let mut v = vec![];
+    let ds = Kind { directed: true, multi: false, loops: false };
+    let us = Kind { directed: false, multi: false, loops: false };
+    let seeds: Vec<u64> = if tier == "quick" { (0..6).collect() } else { (0..40).collect() };
+    for &n in &[6usize, 7, 9, 12] {
+        for &p in &[0.25, 0.4] {
+            for &s in &seeds {
+                for directed in [true, false] {
+                    if let Ok(g) = graphrs::generators::random::fast_gnp_random_graph(n as i32, p, directed, Some(s)) {
+                        let mut es: Vec<(usize, usize, f64)> = g.get_all_edges().iter().map(|e| (e.u as usize, e.v as usize, f64::NAN)).collect();
+                        es.sort_by(|a, b| (a.0, a.1).cmp(&(b.0, b.1)));
+                        if es.is_empty() {
+                            continue;
+                        }
+                        v.push(build_custom(if directed { ds } else { us }, n, &es, &format!("gnp:{n}:{p}:{}:{s}", directed as u8)));
+                        if s < 2 {
+                            let ew: Vec<(usize, usize, f64)> = es.iter().map(|e| (e.0, e.1, (1 + (e.0 * 3 + e.1) % 3) as f64)).collect();
+                            v.push(build_custom(if directed { ds } else { us }, n, &ew, &format!("gnpw:{n}:{p}:{}:{s}", directed as u8)));
+                        }
+                    }
+                }
+            }
+        }
+    }
+    for k in [2usize, 3, 4] {
+        // ring of k triangles, consecutive triangles joined by one edge
+        let n = 3 * k;
+        let mut es = vec![];
+        for t in 0..k {
+            let b = 3 * t;
+            es.push((b, b + 1, f64::NAN));
+            es.push((b + 1, b + 2, f64::NAN));
+            es.push((b + 2, b, f64::NAN));
+            es.push((b + 2, (b + 3) % n, f64::NAN));
+        }
+        v.push(build_custom(ds, n, &es, &format!("triangle-ring:{k}:directed")));
+        v.push(build_custom(us, n, &es, &format!("triangle-ring:{k}:undirected")));
+        // the same with the joining edges running "backwards" (from the later triangle to the earlier one)
+        let es2: Vec<(usize, usize, f64)> = es.iter().map(|&(a, b, w)| if a % 3 == 2 && b % 3 == 0 && b != a - 2 { (b, a, w) } else { (a, b, w) }).collect();
+        v.push(build_custom(ds, n, &es2, &format!("triangle-ring-back:{k}:directed")));
+    }
+    v
+}
+
 pub fn params(tier: &str) -> Params {
     if tier == "quick" {
         Params { bound: 1, budget: 300, seeds: vec![0, 1], free_seeds: 4 }
@@ -345,6 +392,20 @@ pub fn run(tier: &str, rec: &Recorder) -> RunOutput {
     let p = params(tier);
     for f in c13_families(tier) {
         for_each_graph(&f, seed, deadline, &stats, |b, c| check_louvain(b, rec, c, &p));
+    }
+    // medium-size inputs: not exhaustive over graphs, but each explored like the small ones
+    {
+        let med = medium_inputs(tier);
+        let pm = Params { bound: 1, budget: if tier == "quick" { 40 } else { 2000 }, seeds: if tier == "quick" { vec![0, 1] } else { vec![0, 1, 2, 3] }, free_seeds: 4 };
+        let tot = std::sync::Mutex::new(Counters::default());
+        par_for(med.len(), |i| {
+            let mut c = Counters::default();
+            let k = check_louvain(&med[i], rec, &mut c, &pm);
+            c.addn("medium_graph_executions", k);
+            c.inc("medium_graphs");
+            tot.lock().unwrap().merge(&c);
+        });
+        stats.counters.lock().unwrap().merge(&tot.into_inner().unwrap());
     }
     fill_e2_coverage(&mut out, &stats);
     out.set("input_graphs", out.get("states"));
@@ -369,6 +430,21 @@ pub fn run(tier: &str, rec: &Recorder) -> RunOutput {
 }
 
 pub fn replay(case: &str, rec: &Recorder) -> bool {
+    if case.starts_with("custom:") {
+        let label = case.split('|').next().unwrap_or("");
+        for tier in ["quick", "thorough"] {
+            for b in medium_inputs(tier) {
+                if b.case == label {
+                    println!("{}", b.describe());
+                    let pm = Params { bound: 1, budget: 2000, seeds: vec![0, 1, 2, 3], free_seeds: 4 };
+                    let mut c = Counters::default();
+                    check_louvain(&b, rec, &mut c, &pm);
+                    return rec.has_any();
+                }
+            }
+        }
+        return false;
+    }
     let (f, idx, no, eo, _) = match parse_case(case) {
         Some(x) => x,
         None => return false,
